@@ -284,6 +284,16 @@ def C08_5(ctx, facts):
         rr = rm.roots({"l": 0, "p": []})
         ok = any(r.kind == "call" and r.site.matches(r"<impl \[T\]>::len$|slice.*::len$") for r in rr) and any(r.kind == "call" and r.site.matches(r"ReadBufCursor.*::as_mut$") for r in rr)
         ctx.check(ok, "remaining|free-space", "remaining() is the length of the cursor's free space", "remaining() roots %s" % sorted(map(repr, sig(rr)))[:6], rm.where())
+    # Rewind::new stores the stream and Some(prefix); the write half forwards unchanged
+    new = facts.unit(facts.fn("rewind::Rewind::new"))
+    for (b, i, s_) in new.aggregates("rewind::Rewind"):
+        r = s_["r"]
+        ops = dict(zip(r["fields"], r["ops"]))
+        ri = new.roots(ops["inner"]) if "inner" in ops else set()
+        rp = new.roots(ops["prefix"]) if "prefix" in ops else set()
+        ctx.check(any(x.kind == "arg" and x.desc == "inner" for x in ri) and any(x.kind == "arg" and x.desc == "prefix" for x in rp), "Rewind::new|stores-both",
+                  "Rewind::new stores the stream and the prefix", "Rewind::new roots %s / %s" % (sorted(map(repr, ri)), sorted(map(repr, rp))), new.where(b))
+    fwd.E_FWD(ctx, facts, only=["rewind::Rewind"], min_count=5)
 
 
 
